@@ -523,6 +523,17 @@ func generate() {
 		do(fmt.Sprintf("mt %d %d", a, b))
 	}
 
+	// ---- (5b) overlapping saves of one user's favourites
+	{
+		n, ms := 2, 600
+		if th {
+			n, ms = 8, 2000
+		}
+		for i := 0; i < n; i++ {
+			do(fmt.Sprintf("conc %d %d %d", 4+4*(i%2), ms, r.Intn(1000)))
+		}
+	}
+
 	// ---- (6) system-call shape and kill points
 	type crashCase struct {
 		target, old, payload string
